@@ -14,9 +14,12 @@ import (
 )
 
 // A router script (one line):
-//   rtr <pause ms> <retain> : @<t> <event> ; ...
+//
+//	rtr <pause ms> <retain> : @<t> <event> ; ...
+//
 // events: send <pid> | rx rind <pid> | rx rbusy <wait> <ctrl> | rx rlost <k> | rx other | read | close |
-//         sockfail <0|1> | end
+//
+//	sockfail <0|1> | end
 func runRouterScript(t *testing.T, line string) (trace string) {
 	parts := strings.SplitN(line, ":", 2)
 	head := strings.Fields(parts[0])
